@@ -3,6 +3,7 @@ import os, subprocess, shutil, hashlib, tempfile
 from .engine import VERIF, REPO, WORK, unit_lock
 
 _built = {}
+RUNS = [0]   # executions of the real code by this process (reported per bounded suite in the evidence)
 
 
 def crate_dir():
@@ -52,6 +53,7 @@ def run(mode, data, timeout=60):
     fd, path = tempfile.mkstemp(dir=WORK, suffix='.pn')
     os.write(fd, data if isinstance(data, bytes) else data.encode())
     os.close(fd)
+    RUNS[0] += 1
     try:
         p = subprocess.run([exe, mode, path], capture_output=True, text=True, timeout=timeout)
         out = p.stdout.strip().split('\n')[-1] if p.stdout.strip() else ''
